@@ -108,7 +108,7 @@ func facts(f *hc.Facts) {
 
 // ---- implementation adapters ------------------------------------------------------------
 
-var kinds = []string{"u32", "i32", "u64", "i64", "f64", "bool", "i128", "i256", "bytes", "str", "vec"}
+var kinds = []string{"u32", "id", "i32", "u64", "i64", "i53", "f64", "bool", "i128", "i256", "bytes", "str", "vec"}
 
 type value struct {
 	kind string
@@ -120,9 +120,9 @@ type value struct {
 // text is the value as written on the driver's `enc` line.
 func (v value) text() string {
 	switch v.kind {
-	case "u32", "u64", "f64", "bool":
+	case "u32", "id", "u64", "f64", "bool":
 		return strconv.FormatUint(v.u, 10)
-	case "i32", "i64", "vec":
+	case "i32", "i64", "i53", "vec":
 		return strconv.FormatInt(v.i, 10)
 	}
 	return hc.Hex(v.b)
@@ -150,6 +150,10 @@ func encode(v value) []byte {
 	switch v.kind {
 	case "u32":
 		b.PutUint32(uint32(v.u))
+	case "id":
+		b.PutID(uint32(v.u))
+	case "i53":
+		b.PutInt53(v.i)
 	case "i32":
 		b.PutInt(int(v.i))
 	case "u64":
@@ -208,6 +212,14 @@ func decode(kind string, data []byte) (out string, rest []byte, pan any) {
 		var x uint32
 		x, err = b.Uint32()
 		val = strconv.FormatUint(uint64(x), 10)
+	case "id":
+		var x uint32
+		x, err = b.ID()
+		val = strconv.FormatUint(uint64(x), 10)
+	case "i53":
+		var x int64
+		x, err = b.Int53()
+		val = strconv.FormatInt(x, 10)
 	case "i32":
 		var x int
 		x, err = b.Int()
@@ -310,8 +322,10 @@ func genValue(r *hc.RNG, kind string, big bool) value {
 		u >>= uint(r.Intn(64))
 	}
 	switch kind {
-	case "u32":
+	case "u32", "id":
 		v.u = uint64(uint32(u))
+	case "i53":
+		v.i = int64(u)
 	case "i32": // any Go int: PutInt converts with int32(v)
 		v.i = int64(u)
 		if r.Chance(50) {
@@ -583,6 +597,69 @@ func run(c *hc.Ctx) error {
 		add(line, out)
 	}
 
+	// ---- 3b. PeekID / ConsumeID / ConsumeN on arbitrary bytes
+	q := c.N(6000, 200000)
+	for i := 0; i < q; i++ {
+		d := r.Bytes(hc.Pick(r, 0, 1, 3, 4, 5, 8, r.Range(0, 40)))
+		guardOp := func(f func(b *bin.Buffer) string) (out string) {
+			b := &bin.Buffer{Buf: append([]byte{}, d...)}
+			defer func() {
+				if p := recover(); p != nil {
+					out = "panic"
+				}
+			}()
+			return f(b)
+		}
+		var line, out string
+		switch r.Intn(3) {
+		case 0:
+			line = "peek " + hc.Hex(d)
+			out = guardOp(func(b *bin.Buffer) string {
+				v, err := b.PeekID()
+				if err != nil {
+					return "err " + errTag(err)
+				}
+				if !bytes.Equal(b.Buf, d) {
+					return "peek consumed input"
+				}
+				return "ok " + strconv.FormatUint(uint64(v), 10)
+			})
+			c.Count("op.peek")
+		case 1:
+			id := uint32(r.U64())
+			if len(d) >= 4 && r.Chance(60) {
+				id = uint32(d[0]) | uint32(d[1])<<8 | uint32(d[2])<<16 | uint32(d[3])<<24
+			}
+			line = fmt.Sprintf("consume %d %s", id, hc.Hex(d))
+			out = guardOp(func(b *bin.Buffer) string {
+				if err := b.ConsumeID(id); err != nil {
+					if !bytes.Equal(b.Buf, d) {
+						return "failed ConsumeID consumed input"
+					}
+					return "err " + errTag(err)
+				}
+				return "ok " + hc.Hex(b.Buf)
+			})
+			c.Count("op.consume")
+		default:
+			k := hc.Pick(r, 0, 1, len(d), len(d)+1, max(0, len(d)-1), r.Range(0, 48))
+			line = fmt.Sprintf("getn %d %s", k, hc.Hex(d))
+			out = guardOp(func(b *bin.Buffer) string {
+				t := make([]byte, k)
+				if err := b.ConsumeN(t, k); err != nil {
+					return "err " + errTag(err)
+				}
+				return "ok " + hc.Hex(t) + " " + hc.Hex(b.Buf)
+			})
+			c.Count("op.getn")
+		}
+		c.Eval(line, len(d) > 0)
+		if out == "panic" {
+			c.Fail("panic:op", line, "panic")
+		}
+		add(line, out)
+	}
+
 	// ---- 4. length prefixes up to 2^24-1 (no payload through the pipe)
 	lens := []int{0, 1, 2, 3, 4, 252, 253, 254, 255, 256, 257, 65535, 65536, 65537, 1 << 20, 1<<24 - 5, 1<<24 - 4, 1<<24 - 3, 1<<24 - 2, 1<<24 - 1}
 	extra := c.N(40, 400)
@@ -633,7 +710,7 @@ func run(c *hc.Ctx) error {
 		}
 	}
 
-	c.Res.Rule = "values of all 11 primitive kinds (ints clustered at 0, ±1, 2^7, 2^8, 2^16, 2^31, 2^32, 2^63, 2^64−1; doubles incl. ±Inf and NaN payloads as bit patterns; strings/bytes with lengths clustered at 0..8, 248..262, 2^16±, up to 70000 (2^20 in thorough) and header-only up to 2^24−1) are encoded, decoded with trailing bytes or another encoding appended, and truncated; sequences of 2..6 values; arbitrary bytes aimed at each decoder's branches. non-trivial = every case except decoding the empty input; distinct = distinct request line"
+	c.Res.Rule = "values of all 13 kinds (uint32, id, int, uint64, long, int53, double, Bool, int128, int256, bytes, string, vector header) (ints clustered at 0, ±1, 2^7, 2^8, 2^16, 2^31, 2^32, 2^63, 2^64−1; doubles incl. ±Inf and NaN payloads as bit patterns; strings/bytes with lengths clustered at 0..8, 248..262, 2^16±, up to 70000 (2^20 in thorough) and header-only up to 2^24−1) are encoded, decoded with trailing bytes or another encoding appended, and truncated; sequences of 2..6 values; arbitrary bytes aimed at each decoder's branches. non-trivial = every case except decoding the empty input; distinct = distinct request line"
 
 	// ---- correspondence
 	lines := make([]string, len(cs))
